@@ -386,19 +386,28 @@ func cardinalBody() func(*engine.X) {
 // prime generation postconditions
 
 // lockedReader makes the deterministic stream safe for the generators that read from several goroutines.
+// It also carries a byte budget: a generator that keeps drawing randomness without ever returning (a search that
+// cannot succeed) is cut off with an error instead of hanging the check.
 type lockedReader struct {
-	mu sync.Mutex
-	r  io.Reader
+	mu     sync.Mutex
+	r      io.Reader
+	budget int
 }
+
+var errBudget = fmt.Errorf("verif: randomness budget exhausted (generator did not terminate)")
 
 func (l *lockedReader) Read(p []byte) (int, error) {
 	l.mu.Lock()
 	defer l.mu.Unlock()
+	if l.budget < len(p) {
+		return 0, errBudget
+	}
+	l.budget -= len(p)
 	return l.r.Read(p)
 }
 
 func stream(seedIdx int, salt uint64) io.Reader {
-	return &lockedReader{r: pcg.New(uint64(engine.Seed())*1000+uint64(seedIdx), salt)}
+	return &lockedReader{r: pcg.New(uint64(engine.Seed())*1000+uint64(seedIdx), salt), budget: 4 << 20}
 }
 
 func primesBody() func(*engine.X) {
@@ -493,7 +502,12 @@ func primesBody() func(*engine.X) {
 			case "blum-pair":
 				p, q, err := nt.GenerateBlumPrimePair(num.NPlus(), 2*bits, rd)
 				if err != nil {
-					failf(x, "primes/blum-pair/err", "GenerateBlumPrimePair(%d): %v", 2*bits, err)
+					k := "primes/blum-pair/err"
+					if bits%8 != 0 {
+						// consequence of the wrong bit length of the single primes: the pair search can never meet its length condition
+						k = "primes/blum/bitlen-not-multiple-of-8"
+					}
+					failf(x, k, "GenerateBlumPrimePair(%d): %v", 2*bits, err)
 					return
 				}
 				pairChk("GenerateBlumPrimePair", p.Big(), q.Big(), 2*bits)
